@@ -1,8 +1,8 @@
 package harness
 
 import (
-	"math"
 	"fmt"
+	"math"
 	"runtime"
 	"sort"
 	"strings"
